@@ -30,7 +30,7 @@ Step(e) ==
 
 ObsClause(o) ==
     IF mode = "roman" THEN (IF RomanOK(o.syms, rn) THEN "" ELSE "roman-value")
-    ELSE IF ~o.lexed THEN "not-a-number-followed-by-unit"
+    ELSE IF ~o.lexed THEN "not-number-then-unit"
     ELSE IF o.unit # unit THEN "unit-text"
     ELSE IF mode = "number" THEN NumberClause(o, x, n, TRUE)
     ELSE IF mode = "uncert" THEN (IF o.hasu THEN UncertClause(o, x, xe, p, TRUE) ELSE "no-uncertainty-shown")
